@@ -19,10 +19,12 @@ def parseInfo (s : String) : Option (List (Key × (Option (Option Int)) × Nat))
     | [ph, id, pp, rid] => do some ((ph, id), (← parsePP pp), (← rid.toNat?))
     | _ => none
 
-def parseReveal (s : String) : Option (List (Nat × String)) :=
+/-- `<offset>=<id under key 1>+<id under key 2>+…,…` — per candidate window what each station key
+reveals, in key order -/
+def parseReveal (s : String) : Option (List (Nat × List String)) :=
   (fields s ",").mapM fun x =>
     match x.splitOn "=" with
-    | [o, h] => do some ((← o.toNat?), h)
+    | [o, h] => do some ((← o.toNat?), fields h "+")
     | _ => none
 
 def showVerdict : Verdict → String
@@ -45,10 +47,13 @@ def handle (args : List String) : Option String :=
       | some e => e.2
       | none => (none, 0)
     let regs : List RegView := views s ph infoF
-    let revF : Bytes → Option String := fun w => (rev.find? (fun e => window d e.1 == w)).map (·.2)
+    let revF : Bytes → List String := fun w =>
+      match rev.find? (fun e => window d e.1 == w) with
+      | some e => e.2
+      | none => []
     let v ← match tr with
       | "min" => some (wrapMin regs d)
-      | "prefix" => some (wrapPrefix CJ.Gen.prefixTable revF regs d)
+      | "prefix" => some (wrapPrefixK CJ.Gen.prefixTable revF regs d)
       | "obfs4" => some (wrapObfs4 marks regs d)
       | _ => none
     some (showVerdict v)
